@@ -37,6 +37,10 @@ struct TokenParser {
     parse_steps: usize,
     max_parse_steps: usize,
     budget_exhausted: bool,
+    /// Nesting level of the production being parsed (expressions, patterns, clauses).
+    nesting: usize,
+    /// Upper bound of `nesting + height of the sub-tree built so far` at this level.
+    nesting_mark: usize,
 }
 
 impl TokenParser {
@@ -53,6 +57,18 @@ impl TokenParser {
     const BP_NOT: u8 = 40;
     const PARSE_STEP_FACTOR: usize = 2_048;
     const PARSE_STEP_FLOOR: usize = 50_000;
+    /// Maximum nesting of expressions, patterns and sub-queries. The parser, the
+    /// planner, the evaluator and the destructors of the syntax tree recurse once (or a
+    /// few times) per level, so unbounded nesting overflows the stack. The values keep an
+    /// unoptimised build within roughly half of a 2 MiB thread stack.
+    const MAX_NESTING_DEPTH: usize = 40;
+    /// Sub-queries and FOREACH bodies recurse through the clause parser and nest the
+    /// plan, which costs several times the stack of an expression level.
+    const CLAUSE_NESTING_COST: usize = 3;
+    /// Maximum height of an expression tree. Operator chains (`a + b + c`, `x.a.b.c`,
+    /// `l[0][1]`) build left-deep trees without recursing in the parser; every link is
+    /// charged one level on top of the nesting of its operands.
+    const MAX_EXPRESSION_HEIGHT: usize = 128;
 
     fn new(tokens: Vec<Token>) -> Self {
         let max_parse_steps = Self::max_parse_steps_for(tokens.len());
@@ -63,6 +79,8 @@ impl TokenParser {
             parse_steps: 0,
             max_parse_steps,
             budget_exhausted: false,
+            nesting: 0,
+            nesting_mark: 0,
         }
     }
 
@@ -77,6 +95,37 @@ impl TokenParser {
         tokens_len
             .saturating_mul(Self::PARSE_STEP_FACTOR)
             .max(Self::PARSE_STEP_FLOOR)
+    }
+
+    fn nesting_limit_error() -> Error {
+        Error::Other("syntax error: NestingDepthLimitExceeded".to_string())
+    }
+
+    /// Runs `parse` `cost` nesting levels deeper; fails instead of recursing past the limit.
+    fn nested<T>(
+        &mut self,
+        cost: usize,
+        parse: impl FnOnce(&mut Self) -> Result<T, Error>,
+    ) -> Result<T, Error> {
+        if self.nesting + cost > Self::MAX_NESTING_DEPTH {
+            return Err(Self::nesting_limit_error());
+        }
+        self.nesting += cost;
+        let outer_mark = std::mem::replace(&mut self.nesting_mark, self.nesting);
+        let result = parse(self);
+        self.nesting_mark = self.nesting_mark.max(outer_mark);
+        self.nesting -= cost;
+        result
+    }
+
+    /// Accounts for one more node stacked on top of what this level has built so far
+    /// (a link of an operator / postfix chain).
+    fn chain_link(&mut self) -> Result<(), Error> {
+        if self.nesting_mark >= Self::MAX_EXPRESSION_HEIGHT {
+            return Err(Self::nesting_limit_error());
+        }
+        self.nesting_mark += 1;
+        Ok(())
     }
 
     fn parser_complexity_error() -> Error {
@@ -137,6 +186,10 @@ impl TokenParser {
     }
 
     fn parse_clause(&mut self) -> Result<Option<Clause>, Error> {
+        self.nested(Self::CLAUSE_NESTING_COST, Self::parse_clause_unnested)
+    }
+
+    fn parse_clause_unnested(&mut self) -> Result<Option<Clause>, Error> {
         self.ensure_budget()?;
         // Ignore optional trailing semicolons.
         if self.match_token(&TokenType::Semicolon) {
@@ -573,6 +626,10 @@ impl TokenParser {
     }
 
     fn parse_pattern(&mut self) -> Result<Pattern, Error> {
+        self.nested(1, Self::parse_pattern_unnested)
+    }
+
+    fn parse_pattern_unnested(&mut self) -> Result<Pattern, Error> {
         self.ensure_budget()?;
         let variable = if self.peek_is_identifier() && self.check_next(&TokenType::Equals) {
             let var = self.parse_identifier("path variable")?;
@@ -1001,6 +1058,10 @@ impl TokenParser {
     }
 
     fn parse_expression_bp(&mut self, min_bp: u8) -> Result<Expression, Error> {
+        self.nested(1, |parser| parser.parse_expression_bp_unnested(min_bp))
+    }
+
+    fn parse_expression_bp_unnested(&mut self, min_bp: u8) -> Result<Expression, Error> {
         self.ensure_budget()?;
         let mut lhs = self.parse_prefix_expression()?;
 
@@ -1016,6 +1077,7 @@ impl TokenParser {
                 self.consume_null_keyword("Expected NULL after IS")?;
                 BinaryOperator::IsNull
             };
+            self.chain_link()?;
             lhs = Self::binary_expr(lhs, op, Expression::Literal(Literal::Null));
         }
 
@@ -1034,6 +1096,7 @@ impl TokenParser {
             }
 
             let rhs = self.parse_expression_bp(rbp)?;
+            self.chain_link()?;
             if Self::is_chainable_comparison_operator(&op) {
                 // Comparison chains are equivalent to pairwise comparisons joined by AND:
                 // a < b <= c     => (a < b) AND (b <= c)
@@ -1052,6 +1115,7 @@ impl TokenParser {
                         self.consume(&TokenType::With, "Expected WITH after STARTS/ENDS")?;
                     }
                     let next_rhs = self.parse_expression_bp(next_rbp)?;
+                    self.chain_link()?;
                     let chained_cmp = Self::binary_expr(chain_left, next_op, next_rhs.clone());
                     combined = Self::binary_expr(combined, BinaryOperator::And, chained_cmp);
                     chain_left = next_rhs;
@@ -1329,6 +1393,7 @@ impl TokenParser {
         // Postfix operators: property access, indexing/slicing, label predicates.
         loop {
             if self.match_token(&TokenType::Dot) {
+                self.chain_link()?;
                 let property = self.parse_property_key()?;
                 expr = match expr {
                     Expression::Variable(variable) => {
@@ -1343,6 +1408,7 @@ impl TokenParser {
             }
 
             if self.match_token(&TokenType::LeftBracket) {
+                self.chain_link()?;
                 // Parse index/slice: expr[idx] / expr[start..end]
                 let start_expr =
                     if self.check(&TokenType::RangeDots) || self.check(&TokenType::RightBracket) {
@@ -1411,8 +1477,10 @@ impl TokenParser {
     }
 
     fn parse_expression_label_chain(&mut self) -> Result<Vec<String>, Error> {
+        self.chain_link()?;
         let mut labels = vec![self.parse_identifier("label identifier")?];
         while self.match_token(&TokenType::Colon) {
+            self.chain_link()?;
             labels.push(self.parse_identifier("label identifier")?);
         }
         Ok(labels)
@@ -1973,6 +2041,44 @@ mod tests {
             ret.items[2].expression,
             Expression::Literal(Literal::Null)
         ));
+    }
+
+    #[test]
+    fn deep_nesting_is_a_syntax_error_not_a_stack_overflow() {
+        for (open, close) in [
+            ("(", ")"),
+            ("[", "]"),
+            ("{a: ", "}"),
+            ("NOT ", ""),
+            ("- ", ""),
+        ] {
+            let deep = format!("RETURN {}1{}", open.repeat(100_000), close.repeat(100_000));
+            let err = Parser::parse(&deep).expect_err("deep nesting must be rejected");
+            assert_eq!(err.to_string(), "syntax error: NestingDepthLimitExceeded");
+        }
+        let chain = format!("RETURN 1{}", " + 1".repeat(100_000));
+        let err = Parser::parse(&chain).expect_err("long operator chain must be rejected");
+        assert_eq!(err.to_string(), "syntax error: NestingDepthLimitExceeded");
+        let subqueries = format!(
+            "{}RETURN 1 AS x{} RETURN x",
+            "CALL { ".repeat(10_000),
+            " }".repeat(10_000)
+        );
+        let err = Parser::parse(&subqueries).expect_err("deep sub-queries must be rejected");
+        assert_eq!(err.to_string(), "syntax error: NestingDepthLimitExceeded");
+    }
+
+    #[test]
+    fn ordinary_nesting_and_chains_still_parse() {
+        let nested = format!("RETURN {}1{}", "[".repeat(30), "]".repeat(30));
+        Parser::parse(&nested).expect("30 nested lists parse");
+        let chain = format!(
+            "MATCH (n) WHERE n.id = 0{} RETURN n",
+            " OR n.id = 1".repeat(100)
+        );
+        Parser::parse(&chain).expect("a 100-term OR chain parses");
+        Parser::parse("CALL { CALL { CALL { RETURN 1 AS x } RETURN x } RETURN x } RETURN x")
+            .expect("nested sub-queries parse");
     }
 
     #[test]
